@@ -552,22 +552,41 @@ class _ShutilShim:
         return dst
 
 
-_installed = False
+_seamed: set = set()
 
 
 def install() -> None:
-    global _installed
-    if _installed:
-        return
-    _installed = True
+    """module-attribute seams in EVERY loaded aiohomekit module (not only the two that touch files today): a refactoring that moves
+    the file handling into a helper module keeps running inside the simulation.  `open` shadows the builtin per module; `os`,
+    `pathlib`, `tempfile`, `shutil` are replaced only where the module holds the genuine module object (another seam's stand-in,
+    e.g. the randomness shim in crypto.srp, is left alone).  Paths outside /simfs/ fall through to the real thing."""
+    import shutil as _real_shutil
+    import sys
+    import tempfile as _real_tempfile
+
+    import aiohomekit.characteristic_cache  # noqa: F401
+    import aiohomekit.controller.controller  # noqa: F401
+
+    for name, mod in list(sys.modules.items()):
+        if mod is None or name in _seamed or not (name == "aiohomekit" or name.startswith("aiohomekit.")):
+            continue
+        _seamed.add(name)
+        mod.open = sim_open
+        if getattr(mod, "os", None) is _real_os:
+            mod.os = _OsShim()
+        if getattr(mod, "pathlib", None) is _real_pathlib:
+            mod.pathlib = _PathlibShim()
+        if getattr(mod, "tempfile", None) is _real_tempfile:
+            mod.tempfile = _TempfileShim()
+        if getattr(mod, "shutil", None) is _real_shutil:
+            mod.shutil = _ShutilShim()
+        if getattr(mod, "Path", None) is _real_pathlib.Path:
+            mod.Path = _path_factory
+    # the two modules that handle files today get every stand-in whether or not they import the module yet (a change may add it)
     import aiohomekit.characteristic_cache as cc
     import aiohomekit.controller.controller as ctl
 
     for mod in (cc, ctl):
-        mod.open = sim_open
-        mod.pathlib = _PathlibShim()
-        mod.os = _OsShim()
-        mod.tempfile = _TempfileShim()
-        mod.shutil = _ShutilShim()
-        if hasattr(mod, "Path"):
-            mod.Path = _path_factory
+        for attr, shim in (("os", _OsShim), ("pathlib", _PathlibShim), ("tempfile", _TempfileShim), ("shutil", _ShutilShim)):
+            if not isinstance(getattr(mod, attr, None), shim):
+                setattr(mod, attr, shim())
